@@ -12,9 +12,17 @@
 
   Every theorem is for ALL experiments / payload keyword sets / platforms / jobs / argument lists, or
   for ALL histories (lists of operations) of the session machine `step`.
+
+  Extension (last three sections): the circuit of a request as a MATRIX (`Model/C16Mat.lean`: component lists as
+  the code builds them, `cstep` = `step` + components, theorems for all histories and all environments), an input
+  state left behind by a later `add_herald` (decided to be outside the statement, characterised exactly), and the
+  objects a job's request shares with the processor and the sampler (`Model/C16Heap.lean`: `hstep true` = the pinned
+  tree, `hstep false` = the code with `fixes/C16-job-snapshot.diff`, proved equal to `step` over every history).
 -/
 import PercevalModel.Lemmas.C16
 import PercevalModel.Lemmas.C16More
+import PercevalModel.Lemmas.C16Mat
+import PercevalModel.Lemmas.C16Heap
 
 namespace PM.C16
 open PM.SM
@@ -1125,18 +1133,416 @@ example : ((exec step (World.init ⟨none, none, some 2, none, ["probs"]⟩)
      .addIterations [[("input_state", .state [1, 1])]], .createJob .probs, .execute 0 [] [] .ok]).log.map
       (fun s => s.iterator)) = [[[("input_state", .state [1, 1])]]] := by decide
 
+/-! ## the circuit of a request as a MATRIX (`Model/C16Mat.lean`) -/
+
+section MatrixReading
+open Matrix
+variable {R : Type} [CommRing R] [StarRing R]
+
+/-- **payload_matrix_is_user_matrix.**  Over EVERY history of calls from the initial state — processor built
+remotely (`add` or `set_circuit`) or converted from a local processor with heralds anywhere, then any number of
+`add(k, circuit)`, `set_circuit`, `add_herald`, `with_input`, filter, post-selection, noise, parameter calls,
+payload generations, samplers, jobs, executions, accepted or refused, in any order — and for EVERY assignment `ρ`
+of matrices to the user's elementary components (hence whatever values the user has given the circuit parameters,
+at any moment): the matrix of the component list the processor holds — what `serialize(linear_circuit())` puts in
+the request — IS the matrix the user means: the elementary components given since the last `set_circuit` /
+conversion, each at its absolute position in the order of the calls, applied after the converted local
+processor's own matrix read through the relabelling (`U[σ i, σ j]`). -/
+theorem payload_matrix_is_user_matrix (ρ : Env R) (pf : Platform) (ops : List COp) (N : Nat)
+    (hN : (exec sstep (sinit pf) ops).1.w.size = some N) :
+    circMat ρ N (exec sstep (sinit pf) ops).1.comps = (exec sstep (sinit pf) ops).2.mat ρ N :=
+  inv_exec sstep (MatInv ρ) (fun st op h => sstep_matInv ρ st op h) (sinit pf)
+    (fun N h => by simp [sinit, CWorld.init, World.init, World.size] at h) ops N hN
+
+/-- a local processor with a herald INSIDE (mode 1 of 3) -/
+def heraldInside : Exp :=
+  { m := 2, size := 3, heralds := [(1, 1)], input := none, post := none, noise := none,
+    filter := some 0, params := [], circ := ⟨0, []⟩, cparams := [] }
+
+/-- non-vacuity: conversion of that processor (PERM [0, 2, 1] needed), a herald-free `add`, a payload: there is a
+processor of 3 modes, holding PERM, the local component, the inverted PERM and the nested circuit -/
+example : (exec sstep (sinit ⟨none, none, none, none, ["probs"]⟩)
+    [.convert heraldInside [.leaf 0 ⟨0, 3⟩], .add 0 ⟨2, [(0, ⟨1, 2⟩)], 1, []⟩,
+     .plain (.prepare "probs" false false [])]).1.w.size = some 3 ∧
+    (exec sstep (sinit ⟨none, none, none, none, ["probs"]⟩)
+    [.convert heraldInside [.leaf 0 ⟨0, 3⟩], .add 0 ⟨2, [(0, ⟨1, 2⟩)], 1, []⟩,
+     .plain (.prepare "probs" false false [])]).1.comps =
+      [.perm 0 [0, 2, 1], .leaf 0 ⟨0, 3⟩, .permInv 0 [0, 2, 1], .sub 0 ⟨2, [(0, ⟨1, 2⟩)], 1, []⟩] := by
+  decide
+
+/-- **relabelling_is_a_permutation.**  For every well-formed local processor the vector handed to `PERM` by the
+conversion (modes of interest in increasing order, then the herald modes in the order of the `heralds`
+dictionary) is a permutation of all the modes: `PERM.__init__` never refuses it. -/
+theorem relabelling_is_a_permutation (p : Exp) (h : p.WF) : IsPermList p.size (relabelOf p) :=
+  relabelOf_isPerm p h
+
+example : heraldInside.WF ∧ relabelOf heraldInside = [0, 2, 1] := by decide
+
+/-- **converted_matrix_is_local_matrix_relabelled.**  Whenever `from_local_processor(p)` succeeds, from any
+session state, for every component list `pc` of the local processor and every `ρ`: the remote processor has
+`p.size` modes and the matrix it sends has entry `(i, j)` equal to entry `(σ i, σ j)` of the local processor's
+matrix, `σ = relabelOf p` — with or without the PERM pair around the components. -/
+theorem converted_matrix_is_local_matrix_relabelled (ρ : Env R) (cw cw' : CWorld) (p : Exp) (pc : List Comp)
+    (h : cstep cw (.convert p pc) = (cw', .done)) :
+    cw'.w.size = some p.size ∧
+    circMat ρ p.size cw'.comps =
+      (circMat ρ p.size pc).submatrix (permFn p.size (relabelOf p)) (permFn p.size (relabelOf p)) := by
+  simp only [cstep] at h
+  by_cases hσ : IsPermList p.size (relabelOf p)
+  · rw [if_neg (not_not.2 hσ)] at h
+    rcases step_convert_cases cw.w true p with ⟨err, he⟩ | ⟨e, hsz, he⟩
+    · rw [he] at h; cases h
+    · rw [he] at h
+      cases h
+      exact ⟨by simp [World.size, hsz], circMat_wrapPerm ρ p.size (relabelOf p) hσ pc⟩
+  · rw [if_pos hσ] at h; cases h
+
+/-- non-vacuity: the conversion of a well-formed local processor succeeds from every state -/
+theorem conversion_succeeds (cw : CWorld) (p : Exp) (pc : List Comp) (h : p.WF) :
+    ∃ cw', cstep cw (.convert p pc) = (cw', .done) := by
+  obtain ⟨rp, hrp, -⟩ := from_local_preserves p h
+  simp only [cstep]
+  rw [if_neg (not_not.2 (relabelOf_isPerm p h))]
+  simp only [step, if_neg (not_not.2 h), hrp]
+  exact ⟨_, rfl⟩
+
+/-- **added_component_multiplies_on_the_left.**  Whenever `add(k, circuit)` succeeds on a processor of `N` modes:
+the new matrix is the circuit's elementary components, at positions shifted by `k`, applied after everything the
+processor already held. -/
+theorem added_component_multiplies_on_the_left (ρ : Env R) (cw cw' : CWorld) (k : Nat) (c : UC) (e : Exp)
+    (he : cw.w.exp = some e) (h : cstep cw (.add k c) = (cw', .done)) :
+    cw'.w.size = some e.size ∧
+    circMat ρ e.size cw'.comps = flatMat ρ e.size (shiftLeaves k c.leaves) * circMat ρ e.size cw.comps := by
+  simp only [cstep, he] at h
+  by_cases hg : ¬ c.WF ∨ addOk e k c = false
+  · rw [if_pos hg] at h; cases h
+  · rw [if_neg hg] at h
+    have hwf : c.WF := by
+      by_contra hn; exact hg (Or.inl hn)
+    have hok : addOk e k c = true := by
+      cases hb : addOk e k c with
+      | true => rfl
+      | false => exact absurd (Or.inr hb) hg
+    have hfit : k + c.m ≤ e.size := by
+      simp only [addOk, Bool.and_eq_true, decide_eq_true_eq] at hok
+      exact hok.1
+    have hsize := step_size_frame cw.w (.addComponent c.sym c.cparams) rfl
+    generalize step cw.w (.addComponent c.sym c.cparams) = sr at hsize h
+    obtain ⟨w', o⟩ := sr
+    cases o <;> simp only at h <;> cases h
+    refine ⟨?_, ?_⟩
+    · simp only at hsize; rw [hsize, World.size, he]; rfl
+    · rw [circMat_snoc, sub_mat ρ e.size k c hfit hwf]
+
+/-- **nested_equals_unpacked.**  `add(0, circuit)` stores the circuit as one nested component, `set_circuit`
+stores its elementary components one by one: the same matrix. -/
+theorem nested_equals_unpacked (ρ : Env R) (c : UC) (h : c.WF) :
+    circMat ρ c.m [.sub 0 c] = circMat ρ c.m (unpack c) := by
+  rw [circMat_single, sub_mat ρ c.m 0 c (by omega) h, shiftLeaves_zero, circMat_unpack]
+
+example : (⟨2, [(0, ⟨0, 2⟩), (1, ⟨1, 1⟩)], 0, []⟩ : UC).WF := by decide
+
+/-- **replaced_circuit_matrix.**  Whenever `set_circuit` (through the processor or its experiment) succeeds, the
+processor's matrix is the product of the new circuit's elementary components and nothing else — whatever was
+there before (a converted processor's PERMs included) is gone. -/
+theorem replaced_circuit_matrix (ρ : Env R) (cw cw' : CWorld) (checked : Bool) (c : UC) (N : Nat)
+    (h : cstep cw (.setCircuit checked c) = (cw', .done)) :
+    circMat ρ N cw'.comps = flatMat ρ N c.leaves := by
+  simp only [cstep] at h
+  by_cases hwf : c.WF
+  · rw [if_neg (not_not.2 hwf)] at h
+    generalize step cw.w (.setCircuit checked c.m c.sym c.cparams) = sr at h
+    obtain ⟨w', o⟩ := sr
+    cases o <;> simp only at h <;> cases h
+    exact circMat_unpack ρ N c
+  · rw [if_pos hwf] at h; cases h
+
+/-- **circuit_untouched_by_other_calls.**  No call other than the four circuit-changing ones touches the
+component list: between two requests the matrix sent changes only through `ρ` (a parameter value the user set). -/
+theorem circuit_untouched_by_other_calls (cw : CWorld) (op : Op) : (cstep cw (.plain op)).1.comps = cw.comps := by
+  simp only [cstep]
+  split <;> rfl
+
+/-- **cstep_is_step.**  The machine with components IS the symbol machine as far as everything else goes: a call
+is either outside the modelled domain (refused, nothing changes) or its effect on the session state and its output
+are exactly `step`'s — so every theorem above about `step` holds for the session state of `cstep`. -/
+theorem cstep_is_step (cw : CWorld) (op : COp) :
+    cstep cw op = (cw, .err .precondition) ∨
+    ((cstep cw op).1.w = (step cw.w op.toOp).1 ∧ (cstep cw op).2 = (step cw.w op.toOp).2) := by
+  cases op with
+  | newRemote via c noise =>
+    simp only [cstep, COp.toOp]
+    split
+    · left; rfl
+    · right
+      generalize step cw.w (.newRemote via c.m c.sym c.cparams noise) = sr
+      obtain ⟨w', o⟩ := sr
+      cases o <;> exact ⟨rfl, rfl⟩
+  | convert p pc =>
+    simp only [cstep, COp.toOp]
+    split
+    · left; rfl
+    · right
+      generalize step cw.w (.convert true p) = sr
+      obtain ⟨w', o⟩ := sr
+      cases o <;> exact ⟨rfl, rfl⟩
+  | add k c =>
+    simp only [cstep, COp.toOp]
+    split
+    · left; rfl
+    · split
+      · left; rfl
+      · right
+        generalize step cw.w (.addComponent c.sym c.cparams) = sr
+        obtain ⟨w', o⟩ := sr
+        cases o <;> exact ⟨rfl, rfl⟩
+  | setCircuit checked c =>
+    simp only [cstep, COp.toOp]
+    split
+    · left; rfl
+    · right
+      generalize step cw.w (.setCircuit checked c.m c.sym c.cparams) = sr
+      obtain ⟨w', o⟩ := sr
+      cases o <;> exact ⟨rfl, rfl⟩
+  | plain op =>
+    simp only [cstep, COp.toOp]
+    split
+    · left; rfl
+    · right; exact ⟨rfl, rfl⟩
+
+end MatrixReading
+
+/-! ## a stored input state left behind by a later `add_herald`
+
+Decision (property text: "the full input state including herald photons … platform size and photon-count
+constraints are enforced before sending"): the stored input state of such a processor is a state of an OBSOLETE
+layout — the processor the user built holds it as it is (the local simulation reads the very same state), and the
+request transmits it as stored.  That is outside the statement, exactly as for a local processor (C05:
+`Pr.inputCurrent`); the theorems below say precisely what the code does then, for every processor. -/
+
+/-- **add_herald_leaves_input_behind.**  `add_herald(k, v)` never touches the stored input state; a stored state
+that was up to date stays so exactly when it already carries `v` on mode `k`. -/
+theorem add_herald_leaves_input_behind (e e' : Exp) (k v : Nat) (h : addHerald e k v = .ok e') :
+    e'.input = e.input ∧ e'.heralds = e.heralds ++ [(k, v)] ∧
+    (InputFresh e → (InputFresh e' ↔ ∀ t, e.input = some t → t[k]? = some v)) := by
+  unfold addHerald at h
+  split at h
+  · cases h
+  · split at h
+    · cases h
+    · cases h
+      refine ⟨rfl, rfl, fun hfr => ⟨fun h' t ht => h' t ht k v (by simp), fun h' t ht a b hab => ?_⟩⟩
+      simp only [List.mem_append, List.mem_singleton, Prod.mk.injEq] at hab
+      rcases hab with hab | ⟨rfl, rfl⟩
+      · exact hfr t ht a b hab
+      · exact h' t ht
+
+/-- non-vacuity, both ways: `|1,0,0>` then a herald expecting 0 / expecting 1 on mode 1 -/
+example : ∃ e', addHerald { heraldInside with heralds := [], m := 3, input := some [1, 0, 0] } 1 0 = .ok e' ∧
+    InputFresh e' := ⟨_, rfl, by decide⟩
+example : ∃ e', addHerald { heraldInside with heralds := [], m := 3, input := some [1, 0, 0] } 1 1 = .ok e' ∧
+    ¬ InputFresh e' := ⟨_, rfl, by decide⟩
+
+/-- **window_enforced_up_to_herald_mismatch.**  For EVERY processor (stored input up to date or not), platform,
+command, flags and keyword set: if `prepare_job_payload` returns a payload, the input state `t` it carries is the
+stored one, and the quantity `c` the photon-count window was enforced on satisfies
+`c + (photons t has on the herald modes) = n(t) + (photons the heralds expect)`: the window holds for `n(t)`
+corrected by the mismatch on the herald modes — for `n(t)` itself exactly when there is no mismatch. -/
+theorem window_enforced_up_to_herald_mismatch (pf : Platform) (e : Exp) (cmd : String) (cl il : Bool)
+    (kw : Dict V) (e' : Exp) (pl : Dict V) (h : preparePayload pf e cmd cl il kw = (e', .ok pl)) :
+    ∀ t, inputField e il = some t →
+      dget pl "input_state" = some (.state t) ∧
+      ∃ c, c + onModes (heraldModes e) 0 t = t.sum + heraldSum e ∧
+        (∀ mx, pf.maxPhotons = some mx → c ≤ mx) ∧ (∀ mn, pf.minPhotons = some mn → mn ≤ c) := by
+  intro t ht
+  obtain ⟨-, h1, h2⟩ := (constraints_enforced pf e cmd cl il kw e' pl h).2 t ht
+  refine ⟨(payload_configured_present pf e cmd cl il kw e' pl h).2.2.1 t ht,
+    (removeModes (heraldModes e) 0 t).sum + heraldSum e, ?_, h1, h2⟩
+  have := removeModes_sum (heraldModes e) 0 t
+  omega
+
+/-- … in every state of every session: the stale processor reached by `with_input` then `add_herald` sends
+`|1,0,0>` (1 photon) on a platform that wants at least 2, the check having counted 1 + 1 -/
+example : (run step (World.init ⟨none, none, none, some 2, ["probs"]⟩)
+    [.newRemote false 3 0 [] none, .withInput [1, 0, 0], .addHerald 1 1, .setFilter (some 0),
+     .prepare "probs" false false []]).2.getLast?.map
+      (fun o => match o with | .payload pl => dget pl "input_state" | _ => none) =
+    some (some (.state [1, 0, 0])) := by decide
+
+/-! ## what a job's request shares with the processor and the sampler (`Model/C16Heap.lean`) -/
+
+/-- **repaired_job_request_is_as_created.**  With the repaired code (`aliased = false`: the request gets its own
+copy of `_parameters` and of the iterator list when the job is created) the heap machine IS the symbol machine over
+every history: same session state, same outputs — whatever is done to the processor's parameters or the sampler's
+iterations between the creation of a job and its execution, in any interleaving with other jobs, the request sent
+is the one built when the job was created (`job_sent_describes_processor`, `one_create_per_execute`, … apply). -/
+theorem repaired_job_request_is_as_created (hw : HWorld) (ops : List Op) :
+    (run (hstep false) hw ops).1.w = (run step hw.w ops).1 ∧
+    (run (hstep false) hw ops).2 = (run step hw.w ops).2 :=
+  refine_run (hstep false) step (fun a b => a.w = b)
+    (fun s a op hr => by
+      subst hr
+      exact ⟨(hstep_false s op).1, (hstep_false s op).2⟩) hw hw.w rfl ops
+
+/-- **aliased_request_reads_shared_objects** (the code as it is).  For every platform, processor, sampler, method
+and argument list: a job created by `Sampler._create_job` and executed when the dictionary its request points to
+holds `P` and the list it points to (if the request has an `iterator` key at all) holds `I` sends: the command,
+circuit, input state, post-selection, heralds, noise model and `max_shots` of the processor and sampler AT JOB
+CREATION, but `parameters = P` — in particular the photon filter found in `P` — and `I`'s iterations, i.e. the
+content of those two objects AT SEND TIME. -/
+theorem aliased_request_reads_shared_objects (pf : Platform) (e e' : Exp) (s : Sampler) (method : Method) (j : Job)
+    (P : Dict PV) (I : Option (List (Dict IV))) (args : List PV) (kw : Dict PV) (pl : Dict V)
+    (h1 : createJob pf e s method = (e', .ok j))
+    (h2 : createPayloadData { j with payload := derefPayload j.payload P I } args kw = .ok pl) :
+    ∃ prim conv, primitive pf.commands method = some (prim, conv) ∧
+      decode pl = { configOf e prim.name false false with filter := dget P "min_detected_photons" } ∧
+      dget pl "parameters" = some (.params P) ∧
+      dget pl "max_shots" = some (.pv (.int s.maxShots)) ∧
+      dget pl "iterator" = (match I with
+        | some its => some (.iter its.length)
+        | none => if s.iterator ≠ [] then some (.iter s.iterator.length) else none) ∧
+      Clamped pl := by
+  obtain ⟨prim, conv, pl0, hprim, -, hp, hpl, hk, hname, -, -⟩ := createJob_ok pf e s method e' j h1
+  have hk' : ∀ x, x ∈ dkeys j.command ∨ x ∈ j.names → x ∉ fieldKeys := by
+    intro x hx; rw [hk x hx]; decide
+  have hf := createPayloadData_fields { j with payload := derefPayload j.payload P I } args kw pl h2 hk'
+  obtain ⟨c, m, ctx, hh, hc⟩ := createPayloadData_ok _ args kw pl h2
+  have hkeys := (handleParams_keys _ _ _ _ _ _ _ hh).1
+  have hnot : ∀ x, x ≠ "max_samples" → x ≠ "job_context" → x ∉ dkeys (pvDict c ++ [("job_context", ctx)]) := by
+    intro x h1 h2 hm
+    simp only [dkeys, List.map_append, List.map_cons, List.map_nil, List.mem_append, List.mem_cons,
+      List.not_mem_nil, or_false] at hm
+    rcases hm with hm | hm
+    · have : x ∈ dkeys (pvDict c) := hm
+      rw [dkeys_pvDict] at this
+      exact h1 (hk x (hkeys x this))
+    · exact h2 hm
+  -- the request as created
+  have hcfg : decode j.payload = configOf e prim.name false false := by
+    rw [← payload_complete pf e prim.name false false [] e' pl0 hp (by intro k _; rfl)]
+    apply decode_congr
+    intro x hx
+    rw [hpl, dget_dset_ne _ _ _ _ (by intro e0; subst e0; simp [fieldKeys] at hx)]
+    split
+    · rw [dget_dset_ne _ _ _ _ (by intro e0; subst e0; simp [fieldKeys] at hx)]
+    · rfl
+  have hpar : (dget j.payload "parameters").isSome = true := by
+    obtain ⟨-, -, -, -, hpl0⟩ := preparePayload_ok _ _ _ _ _ _ _ _ hp
+    rw [hpl, dget_dset_ne _ _ _ _ (by decide)]
+    have hp0 : (dget pl0 "parameters").isSome = true := by
+      rw [hpl0, fields_parameters]
+      simp [dset_ne_nil, syncFilterParam]
+    split
+    · rw [dget_dset_ne _ _ _ _ (by decide)]; exact hp0
+    · exact hp0
+  have hparams : dget pl "parameters" = some (.params P) := by
+    rw [hf "parameters" (by decide)]
+    exact dget_derefPayload_parameters j.payload P I hpar
+  have hother : ∀ x ∈ fieldKeys, x ≠ "parameters" → dget pl x = dget j.payload x := by
+    intro x hx hne
+    rw [hf x hx]
+    exact dget_derefPayload_other j.payload P I x hne (by intro e0; subst e0; simp [fieldKeys] at hx)
+  refine ⟨prim, conv, hprim, ?_, hparams, ?_, ?_, clamp _ args kw pl h2⟩
+  · rw [← hcfg]
+    simp only [decode, hparams, hother "command" (by decide) (by decide),
+      hother "circuit" (by decide) (by decide), hother "input_state" (by decide) (by decide),
+      hother "postselect" (by decide) (by decide), hother "heralds" (by decide) (by decide),
+      hother "noise" (by decide) (by decide)]
+  · rw [clampPayload_other _ _ hc "max_shots" (by decide),
+      dget_dupdate_of_not_mem _ _ _ (hnot "max_shots" (by decide) (by decide))]
+    show dget (derefPayload j.payload P I) "max_shots" = _
+    rw [dget_derefPayload_other _ _ _ _ (by decide) (by decide), hpl, dget_dset_self]
+  · rw [clampPayload_other _ _ hc "iterator" (by decide),
+      dget_dupdate_of_not_mem _ _ _ (hnot "iterator" (by decide) (by decide))]
+    show dget (derefPayload j.payload P I) "iterator" = _
+    rw [dget_derefPayload_iterator]
+    cases I with
+    | some its => rfl
+    | none =>
+      simp only
+      rw [hpl, dget_dset_ne _ _ _ _ (by decide)]
+      split
+      · rw [dget_dset_self]
+      · obtain ⟨-, -, -, -, rfl⟩ := preparePayload_ok _ _ _ _ _ _ _ _ hp
+        rw [fields_other _ _ _ _ _ (by decide)]
+        simp [dget]
+
+/-- **shared_objects_are_current.**  Over every history, as the code is or repaired: the last dictionary of the
+heap holds exactly the processor's `_parameters`, the last list exactly the sampler's iterations. -/
+theorem shared_objects_are_current (aliased : Bool) (pf : Platform) (ops : List Op) :
+    (exec (hstep aliased) (HWorld.init pf) ops).Current :=
+  inv_exec (hstep aliased) HWorld.Current (fun s op _ => hstep_current aliased s op) (HWorld.init pf)
+    ⟨fun _ h => (by cases h), fun _ h => (by cases h)⟩ ops
+
+/-- **job_dictionary_is_the_processors_until_rebinding.**  From every heap state in which job `idx` points to the
+processor's current dictionary, over EVERY history of calls none of which rebinds `_parameters` (no
+`clear_parameters`, no new processor): the job still points to the processor's current dictionary, whose content is
+the processor's parameters NOW — so (`aliased_request_reads_shared_objects`) a `set_parameter`, a
+`min_detected_photons_filter` or a later payload generation changes what that job will send. -/
+theorem job_dictionary_is_the_processors_until_rebinding (aliased : Bool) (hw : HWorld) (idx : Nat) (ir : Option Nat)
+    (hne : hw.pobjs ≠ []) (href : hw.jrefs[idx]? = some (hw.pobjs.length - 1, ir)) (ops : List Op)
+    (hops : ∀ op ∈ ops, op.rebindsParams = false) :
+    (exec (hstep aliased) hw ops).jrefs[idx]? = some ((exec (hstep aliased) hw ops).pobjs.length - 1, ir) ∧
+    (exec (hstep aliased) hw ops).pobjs ≠ [] := by
+  induction ops generalizing hw with
+  | nil => exact ⟨href, hne⟩
+  | cons op rest ih =>
+    rw [exec_cons]
+    have hop := hops op (by simp)
+    obtain ⟨hlen, -, hj⟩ := hstep_keeps_objects aliased hw op hop hne
+    have hidx : idx < hw.jrefs.length := by
+      by_contra hn
+      rw [List.getElem?_eq_none (by omega)] at href
+      cases href
+    apply ih
+    · intro e
+      rw [e] at hlen
+      have : 0 < hw.pobjs.length := List.length_pos_iff.mpr hne
+      simp at hlen
+      omega
+    · rw [hj idx hidx, hlen]; exact href
+    · intro o ho; exact hops o (by simp [ho])
+
+/-- the witness: filter 2 and one iteration when the job is created, filter 0 and a second iteration before it is
+executed.  The code as it is sends filter 0 and two iterations with the circuit and input of creation time — a
+request that describes no processor the user ever held; the repaired code sends filter 2 and one iteration. -/
+def aliasWitnessOps : List Op :=
+  [.newRemote false 2 0 ["phi"] none, .withInput [1, 1], .setFilter (some 2), .newSampler (.int 100),
+   .addIterations [[("circuit_params", .cparams [("phi", .int 1)])]], .createJob .sample_count,
+   .setFilter (some 0), .addIterations [[("circuit_params", .cparams [("phi", .int 2)])]],
+   .execute 0 [.int 10] [] .ok]
+
+def sentFilterAndIterations (outs : List Out) : Option (Option PV × Nat) :=
+  outs.getLast?.bind fun o => match o with
+    | .sent s => some ((decode s.payload).filter, s.iterator.length)
+    | _ => none
+
+theorem aliased_request_mixes_creation_and_send_time :
+    sentFilterAndIterations (run (hstep true) (HWorld.init ⟨none, none, none, none, ["sample_count"]⟩)
+      aliasWitnessOps).2 = some (some (.int 0), 2) ∧
+    sentFilterAndIterations (run (hstep false) (HWorld.init ⟨none, none, none, none, ["sample_count"]⟩)
+      aliasWitnessOps).2 = some (some (.int 2), 1) := by
+  decide
+
 /-! ## what is still NOT proved (validated by the correspondence only)
 
-* that the relabelled circuit / post-selection symbol denotes the matrix / predicate actually sent,
-  and that `P.set_value`, `set_circuit`, `add` make `linear_circuit()` denote the new matrix: circuits
-  are symbols here (C10's and C15's subject); "deserialising yields the same objects" relies on the real
-  decoders.
-* `n_user + n_heralds = n(transmitted state)` for a stored input that a LATER `add_herald` left behind:
-  false in the model (see the `example` after `photons_user_plus_heralds`), the stale state is
-  transmitted as stored and the window is enforced on `n_user + n_heralds`, not on `n(t)`.
+* the matrix reading (`payload_matrix_is_user_matrix`) takes the OWN matrix of every elementary component from the
+  environment `ρ` (what `BS`, `PS`, `PERM`, `Unitary` compute for themselves: C11's subject; how a nested circuit
+  multiplies its components: C01's), takes a converted local processor's component list as given (how a local
+  processor composes catalog gates: C10's subject) and ignores `simplify()`, which rewrites the PERMs the
+  conversion inserts (assumed to keep the matrix; the correspondence compares the matrix actually sent).
+  `add` is modelled for an int offset on herald-free modes of a processor without post-selection; list / dict
+  mappings (a PERM before the component, none after) are C10's.  The relabelled post-selection symbol is still a
+  symbol.  "Deserialising yields the same objects" relies on the real decoders (C15).
+* `n_user + n_heralds = n(transmitted state)` for a stored input that a LATER `add_herald` left behind: false in
+  general; `window_enforced_up_to_herald_mismatch` states exactly what is enforced then.  Decided to be outside
+  the statement (see the section above).
 * an iteration is judged against the processor as it was when the iteration was added
   (`sent_iterations_were_checked_in_session`: some prefix of the history), not as it is when the job is
   created or sent: the code does not re-check, so no stronger statement holds.
+* the heap machine knows the two objects a request shares with its makers (`_parameters`, the iterator list);
+  the iteration dictionaries inside the list and the objects inside them (a `BasicState`, a `NoiseModel` the user
+  keeps a handle on) are values in the model.
 -/
 
 end PM.C16
